@@ -82,7 +82,11 @@ fn zone_bytes(n: usize, v: u8) -> Vec<u8> {
 /// common mtime (so that nothing but the name distinguishes entries).
 pub fn setup_dir(root: &Path, versions: [u8; 3], mtime_s: u64) {
     for n in 0..3 {
-        write_file(&root.join(NAMES[n]), &zone_bytes(n, versions[n]), mtime_s);
+        if versions[n] == 0 {
+            let _ = std::fs::remove_file(root.join(NAMES[n]));
+        } else {
+            write_file(&root.join(NAMES[n]), &zone_bytes(n, versions[n]), mtime_s);
+        }
     }
 }
 
@@ -90,6 +94,9 @@ pub fn setup_concat(path: &Path, versions: [u8; 3], mtime_s: u64) {
     let mut index = vec![];
     let mut data = vec![];
     for k in 0..3 {
+        if versions[k] == 0 {
+            continue;
+        }
         let bytes = zone_bytes(k, versions[k]);
         let mut e = [0u8; 52];
         e[..NAMES[k].len()].copy_from_slice(NAMES[k].as_bytes());
@@ -129,11 +136,25 @@ impl Db {
             Db::Cat(d) => observe(d.get(q)),
         }
     }
+    fn get_raw(&self, q: &str) -> Option<crate::tz::TimeZone> {
+        match self {
+            Db::Dir(d) => d.get(q),
+            Db::Cat(d) => d.get(q),
+        }
+    }
     fn reset(&self) {
         match self {
             Db::Dir(d) => d.reset(),
             Db::Cat(d) => d.reset(),
         }
+    }
+    fn available(&self) -> Vec<String> {
+        let mut v = match self {
+            Db::Dir(d) => d.available().names,
+            Db::Cat(d) => d.available().names,
+        };
+        v.sort();
+        v
     }
 }
 
@@ -152,25 +173,52 @@ fn open(backend: Backend, root: &Path) -> Db {
 
 /// Expected observation for query `q` given the versions on disk.
 fn check(body: &str, q: &str, got: &Obs, versions: [u8; 3]) {
+    check_any(body, q, got, versions, versions)
+}
+
+/// Like `check`, with two admissible disk states per name (before / after a
+/// concurrent or not-yet-noticed replacement); version 0 is "absent".
+fn check_any(body: &str, q: &str, got: &Obs, va: [u8; 3], vb: [u8; 3]) {
     let idx = NAMES.iter().position(|n| n.eq_ignore_ascii_case(q));
     let case = format!("{} get({:?})", body, q);
     match (idx, got) {
         (None, None) => {}
         (None, Some(g)) => viol("loom/unknown-name-found", case, format!("{:?}", g)),
-        (Some(_), None) => viol("loom/known-name-not-found", case, "None".to_string()),
+        (Some(n), None) => {
+            if va[n] != 0 && vb[n] != 0 {
+                viol("loom/known-name-not-found", case, "None".to_string())
+            }
+        }
         (Some(n), Some((off, name))) => {
-            if *off != utoff_of(n, versions[n]) {
+            let ok = (va[n] != 0 && *off == utoff_of(n, va[n])) || (vb[n] != 0 && *off == utoff_of(n, vb[n]));
+            if !ok {
                 let whose = (0..3).find(|&k| (1..=2).any(|v| utoff_of(k, v) == *off));
                 let sig = match whose {
                     Some(k) if k != n => "loom/returns-another-zones-data",
                     Some(_) => "loom/returns-superseded-version",
                     None => "loom/returns-unknown-data",
                 };
-                viol(sig, case, format!("offset {} name {:?}; expected offset {} ({} v{})", off, name, utoff_of(n, versions[n]), NAMES[n], versions[n]));
+                viol(sig, case, format!("offset {} name {:?}; expected {} v{} or v{}", off, name, NAMES[n], va[n], vb[n]));
             } else if name.as_deref() != Some(NAMES[n]) {
                 viol("loom/not-canonical-spelling", case, format!("{:?}", name));
             }
         }
+    }
+}
+
+fn check_available(body: &str, got: &[String], va: [u8; 3], vb: [u8; 3]) {
+    let case = format!("{} available()", body);
+    for n in 0..3 {
+        let listed = got.iter().any(|x| x == NAMES[n]);
+        if listed && va[n] == 0 && vb[n] == 0 {
+            viol("loom/available-lists-absent-name", case.clone(), format!("{:?}", got));
+        }
+        if !listed && va[n] != 0 && vb[n] != 0 {
+            viol("loom/available-misses-name", case.clone(), format!("{:?}", got));
+        }
+    }
+    if got.iter().any(|x| !NAMES.contains(&x.as_str())) {
+        viol("loom/available-lists-unknown-name", case, format!("{:?}", got));
     }
 }
 
@@ -183,21 +231,39 @@ pub struct Body {
     /// modification time of the replacement (newer or OLDER than the original's
     /// 1_600_000_000: a restored backup, `cp -p`, a tzdata downgrade)
     pub replace: Option<(usize, u64)>,
-    /// per-thread scripts: a query, or "!reset"
+    /// what a "!write" token does while the threads run: replace this zone by
+    /// version 2 (or remove it, version 0) with this modification time
+    pub writer: Option<(usize, u8, u64)>,
+    /// per-thread scripts: a query, "!reset", "!avail" (list the names),
+    /// "!hold:<query>" (look up, let the others run, then use the value) or
+    /// "!write" (the disk change of `writer`)
     pub threads: &'static [&'static [&'static str]],
 }
 
 pub const BODIES: &[Body] = &[
-    Body { name: "H1-cold-distinct", warm: &[], expire: false, replace: None, threads: &[&["Bbb"], &["a/Aaa"]] },
-    Body { name: "H1b-cold-distinct-3", warm: &[], expire: false, replace: None, threads: &[&["Bbb"], &["a/Aaa"], &["Ccc"]] },
-    Body { name: "H2-cold-same-name-case", warm: &[], expire: false, replace: None, threads: &[&["Bbb"], &["bbb"]] },
-    Body { name: "H3-expired-plus-insert", warm: &["a/Aaa", "Ccc"], expire: true, replace: None, threads: &[&["ccc"], &["BBB"]] },
-    Body { name: "H3b-expired-all", warm: &["a/Aaa", "Bbb", "Ccc"], expire: true, replace: None, threads: &[&["CCC"], &["A/AAA"], &["bbb"]] },
-    Body { name: "H4-reset-vs-get", warm: &["Bbb"], expire: false, replace: None, threads: &[&["!reset"], &["Bbb"], &["ccc"]] },
-    Body { name: "H5-unknown-vs-known", warm: &[], expire: true, replace: None, threads: &[&["No/Such"], &["Bbb"], &["a/aaa"]] },
-    Body { name: "H6-replaced-then-expired", warm: &["Bbb", "Ccc"], expire: true, replace: Some((1, 1_600_000_777)), threads: &[&["Bbb"], &["BBB"]] },
-    Body { name: "H6b-replaced-by-older-file-then-expired", warm: &["Bbb", "Ccc"], expire: true, replace: Some((1, 1_500_000_000)), threads: &[&["Bbb"], &["BBB"]] },
-    Body { name: "H7-two-ops-each", warm: &["Ccc"], expire: true, replace: None, threads: &[&["Bbb", "ccc"], &["CCC", "a/Aaa"]] },
+    Body { name: "H1-cold-distinct", warm: &[], expire: false, replace: None, writer: None, threads: &[&["Bbb"], &["a/Aaa"]] },
+    Body { name: "H1b-cold-distinct-3", warm: &[], expire: false, replace: None, writer: None, threads: &[&["Bbb"], &["a/Aaa"], &["Ccc"]] },
+    Body { name: "H2-cold-same-name-case", warm: &[], expire: false, replace: None, writer: None, threads: &[&["Bbb"], &["bbb"]] },
+    Body { name: "H3-expired-plus-insert", warm: &["a/Aaa", "Ccc"], expire: true, replace: None, writer: None, threads: &[&["ccc"], &["BBB"]] },
+    Body { name: "H3b-expired-all", warm: &["a/Aaa", "Bbb", "Ccc"], expire: true, replace: None, writer: None, threads: &[&["CCC"], &["A/AAA"], &["bbb"]] },
+    Body { name: "H4-reset-vs-get", warm: &["Bbb"], expire: false, replace: None, writer: None, threads: &[&["!reset"], &["Bbb"], &["ccc"]] },
+    Body { name: "H5-unknown-vs-known", warm: &[], expire: true, replace: None, writer: None, threads: &[&["No/Such"], &["Bbb"], &["a/aaa"]] },
+    Body { name: "H6-replaced-then-expired", warm: &["Bbb", "Ccc"], expire: true, replace: Some((1, 1_600_000_777)), writer: None, threads: &[&["Bbb"], &["BBB"]] },
+    Body { name: "H6b-replaced-by-older-file-then-expired", warm: &["Bbb", "Ccc"], expire: true, replace: Some((1, 1_500_000_000)), writer: None, threads: &[&["Bbb"], &["BBB"]] },
+    // a third thread inserts between two cached names while they are being read
+    Body { name: "H8-insert-middle-vs-readers", warm: &["a/Aaa", "Ccc"], expire: false, replace: None, writer: None, threads: &[&["BBB"], &["ccc"], &["a/aaa"]] },
+    // available() takes the name index write lock (and re-walks the directory: the index is stale) while lookups run
+    Body { name: "H9-available-vs-gets-expired", warm: &["Bbb"], expire: true, replace: None, writer: None, threads: &[&["!avail"], &["Bbb"], &["ccc"]] },
+    Body { name: "H10-available-vs-reset-vs-get", warm: &["Bbb"], expire: false, replace: None, writer: None, threads: &[&["!avail"], &["!reset"], &["bbb"]] },
+    // a reader holds a value while the entry it came from is dropped by reset() and reloaded from a replaced file
+    Body { name: "H11-hold-vs-reset-and-reload", warm: &["Bbb"], expire: false, replace: Some((1, 1_600_000_777)), writer: None, threads: &[&["!hold:Bbb"], &["!reset", "BBB"]] },
+    Body { name: "H11b-hold-vs-expiry-reload", warm: &["Bbb"], expire: true, replace: Some((1, 1_600_000_777)), writer: None, threads: &[&["!hold:Bbb"], &["BBB"], &["!hold:bbb"]] },
+    // the file is replaced / removed while expired entries are being revalidated
+    Body { name: "H12-writer-vs-getters", warm: &["Bbb", "Ccc"], expire: true, replace: None, writer: Some((1, 2, 1_600_000_777)), threads: &[&["!write"], &["Bbb"], &["bbb"]] },
+    Body { name: "H12b-writer-older-file-vs-getters", warm: &["Bbb", "Ccc"], expire: true, replace: None, writer: Some((1, 2, 1_500_000_000)), threads: &[&["!write"], &["Bbb"], &["bbb"]] },
+    Body { name: "H13-remover-vs-getters", warm: &["Bbb"], expire: true, replace: None, writer: Some((1, 0, 1_600_000_777)), threads: &[&["!write"], &["Bbb"], &["ccc"]] },
+    Body { name: "H14-writer-vs-cold-getters", warm: &[], expire: false, replace: None, writer: Some((1, 2, 1_600_000_777)), threads: &[&["!write"], &["Bbb"], &["bbb"]] },
+    Body { name: "H7-two-ops-each", warm: &["Ccc"], expire: true, replace: None, writer: None, threads: &[&["Bbb", "ccc"], &["CCC", "a/Aaa"]] },
 ];
 
 /// Run one body under loom with the given preemption bound.
@@ -207,7 +273,7 @@ pub fn run(body: &Body, backend: Backend, bound: usize, root: PathBuf, max_threa
     VIOLS.lock().unwrap().clear();
     let threads: Vec<&'static [&'static str]> = body.threads.iter().take(max_threads).copied().collect();
     let name = format!("{:?}/{}", backend, body.name);
-    let (warm, expire, replace) = (body.warm, body.expire, body.replace);
+    let (warm, expire, replace, writer) = (body.warm, body.expire, body.replace, body.writer);
     let nm = name.clone();
     let model = move || {
         EXECS.fetch_add(1, Ordering::SeqCst);
@@ -222,6 +288,7 @@ pub fn run(body: &Body, backend: Backend, bound: usize, root: PathBuf, max_threa
             let got = db.get(q);
             check(&nm, q, &got, versions);
         }
+        let before = versions;
         if let Some((n, mtime)) = replace {
             versions[n] = 2;
             match backend {
@@ -232,19 +299,64 @@ pub fn run(body: &Body, backend: Backend, bound: usize, root: PathBuf, max_threa
         if expire {
             crate::now::set_offset_secs(301);
         }
+        // what the lookups of the threads may see: the disk as it is now, or,
+        // while an entry cached before a replacement has not expired, the
+        // disk as it was; with a writer thread, the disk as it will be
+        let cur = versions;
+        let mut after = versions;
+        if let Some((n, v, _)) = writer {
+            after[n] = v;
+        }
+        let lenient_a = if expire { cur } else { before };
         let mut hs = vec![];
         for script in threads.iter().copied() {
             let db = db.clone();
             let nm = nm.clone();
+            let root = root.clone();
             hs.push(loom::thread::spawn(move || {
                 let mut obs: Vec<String> = vec![];
+                let mut did_reset = false;
                 for q in script {
+                    // after this thread's own reset() nothing cached earlier may answer
+                    let va = if did_reset { cur } else { lenient_a };
                     if *q == "!reset" {
                         db.reset();
+                        did_reset = true;
                         obs.push("reset".to_string());
+                    } else if *q == "!avail" {
+                        let got = db.available();
+                        check_available(&nm, &got, cur, after);
+                        obs.push(format!("avail={}", got.len()));
+                    } else if *q == "!write" {
+                        let (n, _, mtime) = writer.expect("writer");
+                        let _ = n;
+                        match backend {
+                            Backend::Dir => setup_dir(&root, after, mtime),
+                            Backend::Cat => setup_concat(&root.join("tzdata"), after, mtime),
+                        }
+                        obs.push("write".to_string());
+                    } else if let Some(q) = q.strip_prefix("!hold:") {
+                        let tz = db.get_raw(q);
+                        let o1 = observe(tz.clone());
+                        check_any(&nm, q, &o1, va, after);
+                        // let the other threads replace / drop the entry
+                        loom::thread::yield_now();
+                        let o2 = observe(tz.clone());
+                        if o1 != o2 {
+                            viol("loom/held-value-changed", format!("{} hold({:?})", nm, q), format!("{:?} then {:?}", o1, o2));
+                        }
+                        if let Some(t) = &tz {
+                            // a complete zone: usable far from the probe instant, too
+                            let far = jiff::Timestamp::from_second(4_000_000_000).unwrap();
+                            if t.0.to_offset(far).seconds() != o1.as_ref().unwrap().0 {
+                                viol("loom/held-value-incomplete", format!("{} hold({:?})", nm, q), format!("{:?}", o1));
+                            }
+                        }
+                        drop(tz);
+                        obs.push(format!("hold {}={:?}", q, o1.as_ref().map(|g| g.0)));
                     } else {
                         let got = db.get(q);
-                        check(&nm, q, &got, versions);
+                        check_any(&nm, q, &got, va, after);
                         obs.push(format!("{}={:?}", q, got.as_ref().map(|g| g.0)));
                     }
                 }
@@ -258,7 +370,20 @@ pub fn run(body: &Body, backend: Backend, bound: usize, root: PathBuf, max_threa
         // afterwards every name still resolves to the right zone
         for q in NAMES {
             let got = db.get(q);
-            check(&nm, q, &got, versions);
+            check_any(&nm, q, &got, if writer.is_some() || !expire { lenient_a } else { after }, after);
+        }
+        let got = db.available();
+        check_available(&nm, &got, cur, after);
+        if writer.is_some() || replace.is_some() {
+            // "Subsequent interactions with this database will need to
+            // re-read time zone data from disk."
+            db.reset();
+            for q in NAMES {
+                let got = db.get(q);
+                check(&format!("{} after-reset", nm), q, &got, after);
+            }
+            let got = db.available();
+            check_available(&format!("{} after-reset", nm), &got, after, after);
         }
         *OUTCOMES.lock().unwrap().entry(outcome.join(" | ")).or_insert(0) += 1;
     };
